@@ -158,6 +158,10 @@ func (g *Gen) checkProtectedAccess(st *State, p PtrV) {
 		// initialisation of an object this path allocated and has not handed to anyone: no other goroutine can hold it
 		return
 	}
+	if g.constructorRef != "" && p.Ref == g.constructorRef {
+		g.trustedUsed["option constructor: "+g.rootFn.RelString(g.rootFn.Pkg.Pkg)+" runs before its receiver is shared with other goroutines (lock obligations on the receiver waived; the monitor invariants are proved at its return)"] = true
+		return
+	}
 	for _, mon := range g.W.monitors {
 		if typeKeyOfMonitor(mon) != p.RootKey {
 			continue
